@@ -274,6 +274,17 @@ def _match(pat, node, binds):
     return True
 
 
+def _atomic(term):
+    """an identifier or a field projection `(f s)`"""
+    import re
+    return bool(re.fullmatch(r"[A-Za-z_][A-Za-z0-9_']*|\([A-Za-z_][A-Za-z0-9_']* s\)", term))
+
+
+def _ind(text, n):
+    """indent every line of text but the first by n spaces"""
+    return text.replace("\n", "\n" + " " * n)
+
+
 def _is_none_const(e):
     return isinstance(e, ast.Constant) and e.value is None
 
@@ -542,8 +553,11 @@ class FxTr:
 
     def bind(self, key, v, env):
         """let-bind a new value of variable key; returns (let line, env')"""
-        n = self.fresh(key[1])
         env2 = self.copy(env)
+        if _atomic(v.term):                          # `x = y`: an alias, no let
+            env2["vars"][key] = V(v.term, v.ty)
+            return "", env2
+        n = self.fresh(key[1])
         env2["vars"][key] = V(n, v.ty)
         return f"let {n} := {v.term} in\n", env2
 
@@ -621,7 +635,8 @@ class FxTr:
         raise Unsupported(f"statement {type(s).__name__}")
 
     def do_if(self, s, rest, env, k):
-        joinable = not any(isinstance(n, ast.Return) for n in ast.walk(s))
+        # an `if` with a return inside, or the last statement of the body: the rest is translated inside the branches
+        joinable = bool(rest) and not any(isinstance(n, ast.Return) for n in ast.walk(s))
         unk = self.option_params(s.test, env)
         if unk:
             p = unk[0]
@@ -629,7 +644,7 @@ class FxTr:
             envN, envS = self.copy(env), self.copy(env)
             envN["known"][p] = None
             envS["known"][p] = q
-            arms = [(f"| None =>", envN, [s]), (f"| Some {q} =>", envS, [s])]
+            arms = [("| None =>", envN, [s]), (f"| Some {q} =>", envS, [s])]
             head, tail = f"match {p} with", "end"
         else:
             c = self.cond(s.test, env)
@@ -640,10 +655,17 @@ class FxTr:
             arms = [("then", env, list(s.body)), ("else", env, list(s.orelse))]
             head, tail = f"if {c}", ""
         if not joinable:
-            out = f"({head}\n"
+            saved = dict(self.counters)
+            subs = []
             for (h, e, body) in arms:
-                out += f" {h} {self.block(body + rest, e, k)}\n"
-            return out + f" {tail})"
+                self.counters = dict(saved)          # the arms are alternatives: they may reuse names
+                subs.append(self.block(body + rest, e, k))
+            if not unk and all(x == subs[0] for x in subs):
+                return subs[0]                       # `if debug: print(..)`: the test was checked, nothing depends on it
+            out = f"({head}\n"
+            for (h, e, body), sub in zip(arms, subs):
+                out += f" {h} " + _ind(sub, len(h) + 2) + "\n"
+            return (out + f" {tail}").rstrip() + ")"
         # join: pass 1 finds what the statement changes, pass 2 renders the arms returning exactly that
         saved = dict(self.counters)
         ends = []
@@ -700,8 +722,9 @@ class FxTr:
             out_env["drawn"] |= e["drawn"]
         if not changed and not fx_changed:
             return self.block(rest, out_env, k)
-        body = f"({head}\n" + "".join(f"     {h} {r}\n" for h, r in rendered) + f"     {tail})"
-        return f"let {pat} :=\n    {body} in\n" + self.block(rest, out_env, k)
+        body = f"({head}\n" + "".join(f" {h} " + _ind(r, len(h) + 2) + "\n" for h, r in rendered)
+        body = (body + f" {tail}").rstrip() + ")"
+        return f"let {pat} :=\n  " + _ind(body, 2) + " in\n" + self.block(rest, out_env, k)
 
 
 def translate_fn(spec, state, record, prefix, effect_type):
@@ -719,7 +742,7 @@ def translate_fn(spec, state, record, prefix, effect_type):
     rt = ([record] if state else []) + [f"list {effect_type}"] + (["bool"] if spec.ret == "bool" else [])
     src = " ".join(l.strip() for l in ast.unparse(f).splitlines()[:1])
     return (f"(* {spec.cls}.{spec.method}  ({src}) *)\n"
-            f"Definition {spec.name}{ps}\n  : {' * '.join(rt)} :=\n{body}.\n")
+            f"Definition {spec.name}{ps}\n  : {' * '.join(rt)} :=\n  " + _ind(body, 2) + ".\n")
 
 
 def gen_module(title, record, prefix, state, effect_type, constructors, specs):
